@@ -254,25 +254,34 @@ theorem take_output_completes {s s' : St} {size : Nat} {out : Bytes} (hI : Inv s
 with fuel; with at least `callPot M s n = (2n + 2)(M + 8) + 17n + pending + 16` units
 (`n` bytes offered) `compress_stream` never runs out of it — it returns a value or one of the
 modelled panics.  Proved with explicit potential functions that strictly decrease on every
-`continue` (`slowStep_decreases`, `fastStep_decreases`, `mdStep_decreases`).  The only
-hypothesis on the payload encoder is a bound `B` on the bits of one answer (`M ≥ (190 + B)/8`
-bounds the bytes one invocation can leave pending).  The metadata loop's potential needs
-`encode_data(force_flush)` to end with `last_flush_pos_ = input_pos_` — the statement that was
-false at quality 0/1 + catable before the fix (the loop really spun). -/
-theorem call_terminates {o : Oracle} {B M fuel op cap : Nat} {input : Bytes} {s : St}
-    (hB : OracleBounded o B) (hM : (14 + 176 + B) / 8 ≤ M)
+`continue` (`slowStep_decreases`, `fastStep_decreases`, `mdStep_decreases`).  NO hypothesis on the
+payload encoder: `M` only has to bound the staging buffer as it is and as this call can grow it
+(`Cap M`: `storage_.len() ≤ M`, `2 * (input_pos_ + n − last_flush_pos_) + 527 ≤ M`, `2n + 527 ≤ M` —
+e.g. `M = callCap s n`, `call_terminates_callCap`), because what one invocation can leave pending is
+bounded by the machine's own `storage[1 + (storage_ix >> 3)]` checks (`encodeData_store`): a longer
+answer is a panic, not a spin.  The metadata loop's potential needs `encode_data(force_flush)` to end
+with `last_flush_pos_ = input_pos_` — the statement that was false at quality 0/1 + catable before
+the fix (the loop really spun). -/
+theorem call_terminates {o : Oracle} {M fuel op cap : Nat} {input : Bytes} {s : St}
+    (hC : Cap M s { input := input, availIn := input.length, availOut := cap })
     (hop : op ≤ 3) (hI : Inv s) (hw : s.inputPos + input.length < two64) (hl : s.lastBytesBits ≤ 14)
     (hfuel : callPot M s input.length < fuel) :
     compressStream o fuel s op input cap ≠ .fuel :=
-  compressStream_terminates hB hM hop hI hw hl hfuel
+  compressStream_terminates hC hop hI hw hl hfuel
+
+/-- the same with the bound spelled out as a function of the state and the call alone -/
+theorem call_terminates_callCap {o : Oracle} {fuel op cap : Nat} {input : Bytes} {s : St}
+    (hop : op ≤ 3) (hI : Inv s) (hw : s.inputPos + input.length < two64) (hl : s.lastBytesBits ≤ 14)
+    (hfuel : callPot (callCap s input.length) s input.length < fuel) :
+    compressStream o fuel s op input cap ≠ .fuel :=
+  compressStream_terminates (cap_callCap s input cap) hop hI hw hl hfuel
 
 /-- the side condition of `call_terminates` (a carry of at most 14 bits) holds after
-`ensure_initialized` and is preserved by every call and by `take_output` -/
-theorem carry_bound_invariant {o : Oracle} {B M fuel op cap : Nat} {input : Bytes} {s s' : St} {io' : Io} {r : Bool}
-    (hB : OracleBounded o B) (hM : (14 + 176 + B) / 8 ≤ M)
+`ensure_initialized` and is preserved by every call and by `take_output` — whatever the oracle answers -/
+theorem carry_bound_invariant {o : Oracle} {fuel op cap : Nat} {input : Bytes} {s s' : St} {io' : Io} {r : Bool}
     (hop : op ≤ 3) (hI : Inv s) (hw : s.inputPos + input.length < two64) (hl : s.lastBytesBits ≤ 14)
     (h : compressStream o fuel s op input cap = .ok (s', io', r)) : s'.lastBytesBits ≤ 14 :=
-  compressStream_lbb hB hM hop hI hw hl h
+  compressStream_lbb hop hI hw hl h
 
 theorem carry_bound_initial (s : St) (h : s.isInitialized = false) : (ensureInitialized s).lastBytesBits ≤ 14 :=
   ensureInitialized_lbb s h
@@ -286,7 +295,8 @@ example : Inv (ensureInitialized St.new) := (inv_fresh ⟨{}, rfl⟩).1
 example : Contract.accepts .flushing 0 1 = false := by decide
 example : Contract.accepts (.metadata 5) 3 5 = true := by decide
 example : Contract.accepts .processing 3 16777217 = false := by decide
-/-- an oracle with bounded answers exists (e.g. the one that always answers with 3 bits) -/
-example : OracleBounded (fun _ _ => { bits := [true, false, true] }) 3 := fun _ _ => Nat.le_refl _
+/-- the storage bound of `call_terminates` is met by a concrete value for every state and call -/
+example (s : St) (input : Bytes) (cap : Nat) : Cap (callCap s input.length) s { input := input, availIn := input.length, availOut := cap } :=
+  cap_callCap s input cap
 
 end BV.Props.C20
